@@ -78,6 +78,10 @@ def validate_pad_value(pad_value: Union[float, str, List[float]], images: List[D
             pad_value = [np.min(im.array) for im in images]
         elif pad_value == "max":
             pad_value = [np.max(im.array) for im in images]
+        else:
+            raise ValueError(
+                f"pad_value string must be one of ['median', 'mean', 'min', 'max'], got {pad_value!r}"
+            )
     elif isinstance(pad_value, numbers.Number):
         if float(pad_value) < 0.0:
             raise ValueError(f"pad_value of {pad_value} is < 0.0")
